@@ -9,7 +9,7 @@ open Verif.Model.Dispatch
 
 in:  `{"m":"dispatch","server":{"tools":{name:beh},"resources":{uri:beh},"custom":{method:cbeh},"nextSid":s},
        "msg":{"id":null|{"i":n}|{"s":str},"method":null|str,"name":key,"uri":key,"argsOk":bool}}`
-     beh = "returns"|"raises"|"nonsense"; cbeh = "answers"|"silent"|"raises"|"nonsense";
+     beh = "returns"|"raises"|"nonsense"; cbeh = "answers"|"silent"|"raises"|"nonsense"|"acks"|"acksSid"|"echoes";
      key = ["absent"]|["str",s]|["scalar"]|["unhashable"]
 out: `{"raised":null|"nullId"|"notAPair","resp":null|{"kind":"result"|"error","id":…,"code":n?},"sid":bool}` -/
 
@@ -47,6 +47,9 @@ def beh : String → Except String Beh
 def cbeh : String → Except String CBeh
   | "answers" => pure (.answers "r")
   | "silent" => pure .silent
+  | "acks" => pure (.acks (.str "foreign-id") none)
+  | "acksSid" => pure (.acks (.str "foreign-id") (some "sid-from-handler"))
+  | "echoes" => pure (.echoes "r")
   | "raises" => pure .raises
   | "nonsense" => pure .returnsNonsense
   | s => throw s!"bad behaviour {s}"
